@@ -68,6 +68,7 @@ class BuildInfo:
         self.log = ""
         self.driver_ok = True
         self.facts = {}
+        self.facts_error = None
         self.wall = 0.0
 
 
@@ -79,7 +80,13 @@ def lean_build(timeout=1500):
     lock = open(os.path.join(LEAN_DIR, ".build.lock"), "w")
     fcntl.flock(lock, fcntl.LOCK_EX)
     try:
-        info.facts = facts.regenerate()
+        try:
+            info.facts = facts.regenerate()
+        except Exception as e:  # noqa: BLE001
+            # the source no longer has the shape the translator reads: an obligation that no longer checks (the
+            # previous Generated/Facts.lean stays in place so that model and correspondence still run)
+            info.facts = {"unparsed": ["translator failed"]}
+            info.facts_error = "%s: %s" % (type(e).__name__, e)
         try:
             r = _lake(["build"], timeout)
         except subprocess.TimeoutExpired:
